@@ -294,12 +294,12 @@ func backendGrid(thorough bool) []backendPoint {
 func runBackendWorkload(t *testing.T, workload, backend, serverKind string, concurrentOK, forceConcurrent bool) {
 	env := vrun.LoadEnv()
 	grid := backendGrid(env.Thorough())
-	variants := 2
+	variants := env.Pick(2, 4)
 	meta := vrun.Meta{
 		Property: "C13", Workload: workload, Total: len(grid) * variants,
 		Rule: "case = (grid point, variant) over loopback TCP with the '" + backend + "' backend of the library on the dialing side (tws.Dialer, parameters travel in the URL query) and a " +
 			"harness adapter over the independent '" + serverKind + "' WebSocket implementation plus a library Transport on the accepting side. Grid: type {per-message, context-takeover} x level " +
-			"(quick {0,1,5,9}, thorough 0..9) x windowBits (quick {0,8,15}, thorough {0,1,8,9,15,16,32}); level 0 = compression off. Variant 0: one writer per side; variant 1: " +
+			"(quick {0,1,5,9}, thorough 0..9) x windowBits (quick {0,8,15}, thorough {0,1,8,9,15,16,32}); level 0 = compression off. Even variants: one writer per side; odd variants: " +
 			"1-8 concurrent writers per side (only where the backend serialises writers; otherwise one writer with another sequence). Message sequences as in TestC13MemGrid " +
 			"(big = 1 MiB quick / 4 MiB thorough). Non-trivial/distinct as in TestC13MemGrid.",
 		Assumptions: []string{
@@ -352,7 +352,7 @@ func runBackendCase(c *vrun.Case, srv *wsServer, addr, workload, backend, server
 			writers = [2]int{2 + rng.Intn(7), 1}
 			perMin, perMax = 3, 8
 			vname = "concurrent-writers"
-		case variant == 1 && concurrentOK:
+		case variant%2 == 1 && concurrentOK:
 			writers = [2]int{1 + rng.Intn(8), 1 + rng.Intn(8)}
 			perMin, perMax = 3, 8
 			vname = "concurrent-writers"
